@@ -56,14 +56,21 @@ func h3ErrName(err error) string {
 	return err.Error()
 }
 
-func forkNext(in []byte) (o h3obs) {
+func forkNext(in []byte) (o h3obs) { return forkNextMode(in, false) }
+
+// forkNextMode: body = the frameParser's bodyStream flag (true while stream.Read parses a message body)
+func forkNextMode(in []byte, body bool) (o h3obs) {
 	defer func() {
 		if p := recover(); p != nil {
 			o = h3obs{Err: fmt.Sprint("panic:", p)}
 		}
 	}()
 	rd := bytes.NewReader(in)
-	f, closed, err := fh3.VerifParseNext(rd)
+	parse := fh3.VerifParseNext
+	if body {
+		parse = fh3.VerifParseNextBody
+	}
+	f, closed, err := parse(rd)
 	return h3obs{Kind: f.Kind, Length: f.Length, Datagram: f.Datagram, ExtConn: f.ExtendedConnect, Other: sortedPairs(f.Other),
 		Err: h3ErrName(err), Closed: closed, Left: rd.Len()}
 }
@@ -89,6 +96,8 @@ func (o h3obs) coq(in []byte) string {
 		switch {
 		case o.Err == "EOF":
 			return "(H3Err H3EOF) None"
+		case o.Err == "UnexpectedEOF":
+			return "(H3Err H3UnexpectedEOF) None"
 		case scan(o.Err, "http3: reserved frame type: %d", &n):
 			if o.Closed != 0x105 {
 				return "(H3Err H3_RESERVED_WITHOUT_CLOSE) None"
@@ -130,35 +139,94 @@ func scan(s, format string, a ...interface{}) bool {
 	return fmt.Sprintf(format, vals...) == s
 }
 
-// h3NextCase: one ParseNext call on both implementations (+ the model).
+// h3NextCase: one ParseNext call on both implementations (+ the model), on a control stream.
 func h3NextCase(r *hk.Run, in []byte, tag string, model bool) (fo h3obs) {
-	fo, ro := forkNext(in), refNext(in)
-	desc := map[string]interface{}{"kind": "h3-parsenext", "tag": tag, "input": fmt.Sprintf("%x", capBytes(in, 256)), "len": len(in)}
-	r.Count("h3.next." + tag)
+	return h3NextCaseMode(r, in, false, tag, model)
+}
+
+// h3NextCaseMode: body = parse as stream.Read does for a message body.  quic-go v0.48.2 has no such
+// mode (every reader failure is io.EOF); the fork's body mode may only differ from it by calling a
+// stream that ended INSIDE a frame io.ErrUnexpectedEOF - decided here by an independent walk of the
+// frames.  A stream that ends between two frames must be io.EOF in both.
+func h3NextCaseMode(r *hk.Run, in []byte, body bool, tag string, model bool) (fo h3obs) {
+	fo, ro := forkNextMode(in, body), refNext(in)
+	mode := "ctrl"
+	if body {
+		mode = "body"
+	}
+	desc := map[string]interface{}{"kind": "h3-parsenext", "mode": mode, "tag": tag, "input": fmt.Sprintf("%x", capBytes(in, 256)), "len": len(in)}
+	r.Count("h3.next." + mode + "." + tag)
 	switch {
 	case fo.Err == "":
 		r.Count("h3.next.frame." + fo.Kind)
 	case fo.Err == "EOF":
 		r.Count("h3.next.err.eof")
+	case fo.Err == "UnexpectedEOF":
+		r.Count("h3.next.err.unexpected-eof")
 	default:
 		r.Count("h3.next.err." + strings.SplitN(strings.SplitN(fo.Err, ":", 2)[0], " ", 3)[0])
+	}
+	cmp := fo
+	if body {
+		end := streamEnd(in)
+		switch {
+		case fo.Err == "UnexpectedEOF" && end == endInsideFrame:
+			cmp.Err = "EOF" // the one sanctioned difference
+			r.Count("h3.next.body.truncated-inside-frame")
+		case fo.Err == "UnexpectedEOF":
+			r.Fail(hk.Failure{Sig: "h3:parsenext-body:clean-end-reported-truncated:" + tag, What: "a body stream that ends between two frames (right behind complete skipped frames) is reported as io.ErrUnexpectedEOF; quic-go and RFC 9114 (unknown frames MUST be ignored) make it a clean io.EOF", Input: desc, Got: fo.key(), Want: ro.key()})
+		case fo.Err == "EOF" && end == endAtBoundary:
+			r.Count("h3.next.body.clean-end")
+		}
 	}
 	if reachesGoAway(in) {
 		// the fork has no GOAWAY frame (it skips type 0x7 like any other frame it does not act on);
 		// not part of the property (frame headers, SETTINGS, integers) - recorded, not compared
 		r.Count("h3.next.goaway-not-compared")
-	} else if fo.key() != ro.key() {
-		r.Fail(hk.Failure{Sig: "h3:parsenext:" + tag, What: "fork frameParser.ParseNext differs from quic-go v0.48.2 (frame, error, connection close code or bytes consumed)", Input: desc, Got: fo.key(), Want: ro.key()})
+	} else if cmp.key() != ro.key() {
+		r.Fail(hk.Failure{Sig: "h3:parsenext:" + mode + ":" + tag, What: "fork frameParser.ParseNext differs from quic-go v0.48.2 (frame, error, connection close code or bytes consumed)", Input: desc, Got: fo.key(), Want: ro.key()})
 	}
 	if strings.HasPrefix(fo.Err, "panic:") {
 		r.Fail(hk.Failure{Sig: "h3:parsenext-panic:" + tag, What: "ParseNext panicked", Input: desc, Got: fo.Err})
 	}
 	c := hk.Case{Desc: desc}
 	if model {
-		c.Coq = fmt.Sprintf("H3Next %s %s", hk.CoqBytes(in), fo.coq(in))
+		c.Coq = fmt.Sprintf("H3Next %s %s %s", hk.CoqBool(body), hk.CoqBytes(in), fo.coq(in))
 	}
-	r.Add(c, "h3n|"+string(in), len(in) > 2)
+	r.Add(c, "h3n|"+mode+"|"+string(in), len(in) > 2)
 	return fo
+}
+
+const (
+	endNotReached = iota // ParseNext returns or refuses a frame before the end of the stream
+	endAtBoundary        // the stream ends between two frames (possibly after skipped ones)
+	endInsideFrame       // the stream ends inside a frame type, a frame length or a skipped payload
+)
+
+// streamEnd walks the frames the way any parser must (reference varint reader).
+func streamEnd(in []byte) int {
+	rd := bytes.NewReader(in)
+	for {
+		if rd.Len() == 0 {
+			return endAtBoundary
+		}
+		t, err := rvi.Read(rd)
+		if err != nil {
+			return endInsideFrame
+		}
+		l, err := rvi.Read(rd)
+		if err != nil {
+			return endInsideFrame
+		}
+		switch t {
+		case 0x0, 0x1, 0x4, 0x2, 0x6, 0x8, 0x9:
+			return endNotReached
+		}
+		if uint64(rd.Len()) < l {
+			return endInsideFrame
+		}
+		rd.Seek(int64(l), io.SeekCurrent)
+	}
 }
 
 // reachesGoAway walks the frame headers the way any parser must (reference varint reader) and
@@ -331,8 +399,11 @@ func runH3Frames(r *hk.Run, rng *hk.Rand) {
 			in := append(append(rvi.Append(nil, t), rvi.Append(nil, uint64(len(p)))...), p...)
 			in = append(in, 0x00, 0x05, 0xff) // a DATA frame header follows
 			h3NextCase(r, in, "types", true)
+			h3NextCaseMode(r, in, true, "types", pl == 0)
 			if pl > 0 {
 				h3NextCase(r, in[:len(in)-4], "types-short", true)
+				h3NextCaseMode(r, in[:len(in)-4], true, "types-short", true)
+				h3NextCaseMode(r, in[:len(in)-3], true, "types-then-end", true) // ends right behind the frame
 			}
 		}
 	}
@@ -348,8 +419,9 @@ func runH3Frames(r *hk.Run, rng *hk.Rand) {
 		if rng.Chance(15) {
 			in = in[:rng.Intn(len(in)+1)]
 		}
+		body := i%2 == 1
 		for call := 0; call < 4; call++ {
-			o := h3NextCase(r, in, "stream", i%modelEvery == 0)
+			o := h3NextCaseMode(r, in, body, "stream", i%modelEvery == 0)
 			if o.Err != "" || o.Left == 0 {
 				break
 			}
@@ -365,6 +437,35 @@ func runH3Frames(r *hk.Run, rng *hk.Rand) {
 		in = append(in, p...)
 		for k := 0; k <= len(in); k++ {
 			h3NextCase(r, in[:k], "truncated", true)
+			h3NextCaseMode(r, in[:k], true, "truncated", k%2 == 0)
+		}
+	}
+	// (4b) sequences of 1..4 complete frames the parser skips (GREASE, extensions, CANCEL_PUSH,
+	//      PUSH_PROMISE, GOAWAY, MAX_PUSH_ID), then: the end of the stream / a cut inside the next
+	//      frame type / inside its length / inside its payload / a DATA header - both modes
+	skipTypes := []uint64{0x3, 0x5, 0x7, 0xd, 0x21, 0x1f*5 + 0x21, 0x40, 0xe, 16384, 1<<30 + 1, 1<<62 - 1}
+	for i := 0; i < r.Scale(300, 20000); i++ {
+		var in []byte
+		k := rng.Range(1, 4)
+		if i < 11 {
+			k = 1
+		}
+		for j := 0; j < k; j++ {
+			t := hk.Pick(rng, skipTypes)
+			if i < 11 {
+				t = skipTypes[i]
+			}
+			p := rng.Bytes(hk.Pick(rng, []int{0, 0, 1, 2, 9, 70}))
+			in = append(in, viAny(rng, t)...)
+			in = append(in, viAny(rng, uint64(len(p)))...)
+			in = append(in, p...)
+		}
+		tails := [][]byte{nil, {0xc0}, {0x80, 0x00}, append(viAny(rng, hk.Pick(rng, skipTypes)), 0x40), append(append(viAny(rng, 0x21), viAny(rng, 5)...), 1, 2), {0x00, 0x07}, {0x01}}
+		for ti, tail := range tails {
+			full := append(append([]byte{}, in...), tail...)
+			m := i < 40 || ti == 0
+			h3NextCaseMode(r, full, true, fmt.Sprintf("after-skipped-%d", ti), m)
+			h3NextCaseMode(r, full, false, fmt.Sprintf("after-skipped-%d", ti), m && i < 40)
 		}
 	}
 	// (5) the SETTINGS size cap: payloads of 8190..8194 bytes (distinct 8+8-byte pairs + filler), and
